@@ -1,5 +1,7 @@
 """C08: row/column selectors resolve with Python slice semantics.
 
+PRF  proofs/ViewBoundsProof (TLAPS): WellFormed(Resolve(form, a, b, n)) for
+     EVERY axis length and EVERY integer bounds (the spec's own postcondition).
 MC   ViewBoundsMC: the slice spec agrees with an independent element-wise
      reading of Python slicing and is well formed on every selector.
 GEN  ViewBoundsGen: every selector form x integer type x bound values.
@@ -11,9 +13,17 @@ from . import lib
 
 def run(ctx):
     tier = ctx.tier
-    mc = lib.tlc("surface/ViewBoundsMC", workers=8, timeout=600)
+    import concurrent.futures as cf
+    with cf.ThreadPoolExecutor(max_workers=1) as ex:
+        # unbounded complement: TLAPS proves WellFormed(Resolve(..)) for every axis length and every integer bound
+        proof = ex.submit(lib.tlapm, "proofs/ViewBoundsProof", includes=("surface",))
+        mc = lib.tlc("surface/ViewBoundsMC", workers=8, timeout=600)
+        obligations, proved, pwall, ptail = proof.result()
     if mc.invariant:
         raise lib.ToolError("ViewBounds spec disagrees with its own reference reading: " + mc.invariant)
+    if obligations == 0 or proved != obligations:
+        lib.log(ptail)
+        raise lib.ToolError(f"TLAPS proof of ViewBoundsProof!ResolveWellFormed incomplete: {proved}/{obligations}")
     vec = ctx.path("vectors.ndjson")
     if ctx.replay:
         import json
@@ -40,6 +50,8 @@ def run(ctx):
         "exhaustive": True,
         "spec_model_check": lib.mc_record("ViewBoundsMC", mc, "MaxN=6 B=9"),
         "states": mc.distinct, "transitions": mc.generated,
+        "spec_proof": {"module": "proofs/ViewBoundsProof.tla", "theorem": "ResolveWellFormed: for all n in Nat, a, b in Int and every form, Resolve is None or a non-empty window inside 0..n",
+                       "obligations": obligations, "discharged": proved, "wall_s": round(pwall, 1), "prover": "tlapm (SMT)"},
     }
     return lib.finish(ctx, "exploration", cov,
                       ["TLC/SANY and the CommunityModules Json module", "axis lengths < 2^31 (bounds of magnitude >= 2^31 are abstracted to +-infinity)"])
